@@ -105,6 +105,10 @@ pub enum Directed {
     IntBoundaries,
     EmptyStrings,
     SharedStrings,
+    /// a string beyond 64 KiB is saved, then loses its place (0 its row is
+    /// deleted, 1 the cell is updated to a text other cells hold, 2 the cell
+    /// is updated to a short new text), and the package is saved again
+    LongStringReleased(u8),
     /// a table with this many columns (the format's limit is 32)
     Wide(usize),
     /// a table with this many rows (its stream spans several 8 KiB buffers)
@@ -175,6 +179,17 @@ fn directed_mode(d: &Directed, mode: CloseMode) -> Check {
             pkg.create_table("T", vec![Column::build("k").primary_key().int16(), Column::build("v").nullable().string(8), Column::build("w").string(8)]).map_err(|e| err("create_table", e))?;
             pkg.insert_rows(Insert::into("T").row(vec![Value::Int(1), Value::Str(String::new()), Value::Str("x".into())]).row(vec![Value::Int(2), Value::Null, Value::Str(String::new())]))
                 .map_err(|e| err("insert", e))?;
+        }
+        Directed::LongStringReleased(how) => {
+            pkg.create_table("T", vec![Column::build("k").primary_key().int16(), Column::build("v").nullable().string(0)]).map_err(|e| err("create_table", e))?;
+            let long: String = (0..70_000).map(|i| (b'a' + (i % 26) as u8) as char).collect();
+            pkg.insert_rows(Insert::into("T").row(vec![Value::Int(1), Value::Str(long)]).row(vec![Value::Int(2), Value::Str("short".into())]).row(vec![Value::Int(3), Value::Str("later".into())])).map_err(|e| err("insert", e))?;
+            pkg.flush().map_err(|e| err("flush", e))?;
+            match how % 3 {
+                0 => pkg.delete_rows(msi::Delete::from("T").with(msi::Expr::col("k").eq(msi::Expr::integer(1)))).map_err(|e| err("delete", e))?,
+                1 => pkg.update_rows(msi::Update::table("T").set("v", Value::Str("short".into())).with(msi::Expr::col("k").eq(msi::Expr::integer(1)))).map_err(|e| err("update", e))?,
+                _ => pkg.update_rows(msi::Update::table("T").set("v", Value::Str("brand new".into())).with(msi::Expr::col("k").eq(msi::Expr::integer(1)))).map_err(|e| err("update", e))?,
+            }
         }
         Directed::Wide(n) => {
             let mut cols = vec![Column::build("k").primary_key().int16()];
@@ -248,6 +263,9 @@ fn directed_cases(tier_thorough: bool) -> Vec<Directed> {
         for n in [65533usize, 65538, 196608, 1 << 20] {
             v.push(Directed::LongString(n));
         }
+    }
+    for how in 0..3u8 {
+        v.push(Directed::LongStringReleased(how));
     }
     for n in [31usize, 32] {
         v.push(Directed::Wide(n));
